@@ -152,7 +152,7 @@ def rule_b(ctx):
     raise AnalysisError('C08.b: call-graph depth bound hit')
   ctx.note(f'C08.b: {len(ga.visited)} functions traversed, '
            f'{len(ga.guards_seen)} seal-guard tests recognised')
-  if len(ga.guards_seen) < 15:
+  if len(ga.guards_seen) < 8:
     raise AnalysisError(f'C08.b recognised only {len(ga.guards_seen)} seal guards')
 
 
